@@ -1,6 +1,6 @@
 SPECIFICATION TraceSpec
 CONSTANTS MaxRecs = 99 MaxCalls = 9999 MaxRuns = 9999 CommitBeforeReturn = TRUE TolerantVersionRead = TRUE
-          AtomicUpgrade = TRUE Legacy = FALSE MaxBatches = 9999 GateResetOnError = TRUE ReloadWait = 0 Strict = FALSE
+          AtomicUpgrade = TRUE Legacy = FALSE MaxBatches = 9999 GateResetOnError = TRUE ReloadWait = 0 MaxDepth = 9999 EnterKeepsPending = TRUE ParentFirst = TRUE Strict = FALSE
 INVARIANT TraceAccepted
 INVARIANT AckedDurable
 INVARIANT NoPartialRecord
